@@ -532,6 +532,47 @@ def streamEncoderMtMemusage (b : Build) (threads blockSizeOpt : Nat) (fs : List 
             let t2 := t1 + filters
             if UINT64_MAX - t2 < oq then none else some (t2 + oq)
 
+/-! ## What `lzma_stream_encoder_mt` really allocates -/
+
+/-- `lzma_filters_copy`: one allocation per filter whose options are not NULL. -/
+def copiedOptions (b : Build) : List Filter → List Nat
+  | [] => []
+  | .lzma1 _ :: r | .lzma2 _ :: r => b.szOptionsLzma :: copiedOptions b r
+  | .bcj _ (some _) :: r => b.szOptionsBcj :: copiedOptions b r
+  | .delta (some _) :: r => b.szOptionsDelta :: copiedOptions b r
+  | _ :: r => copiedOptions b r
+
+/-- One worker of the threaded encoder (`initialize_new_thread`, `get_thread`, `worker_encode`): the input buffer of
+    `coder->block_size` bytes, the thread-specific copy of the filter options, the Block encoder and its filter chain. -/
+def mtEncWorkerAllocs (b : Build) (blockSize : Nat) (fs : List Filter) : List Nat :=
+  blockSize :: (copiedOptions b fs ++ b.szBlockEncoder :: (rawEncoderInit b fs).2)
+
+/-- Record groups of the encoder's Index after `nblocks` Blocks (`lzma_index_append`: one group per 512 Records). -/
+def indexGroupAllocs (b : Build) (nblocks : Nat) : List Nat :=
+  List.replicate ((nblocks + INDEX_GROUP_SIZE - 1) / INDEX_GROUP_SIZE) (b.szIndexGroup + INDEX_GROUP_SIZE * b.szIndexRecord)
+
+/-- What `stream_encoder_mt_init` itself requests, in order: the coder, the `threads` array, the copy of the filter
+    options, the Index with its first Stream. -/
+def streamEncoderMtInitAllocs (b : Build) (threads : Nat) (fs : List Filter) : List Nat :=
+  [b.szStreamEncoderMt, threads * b.szWorkerEnc] ++ copiedOptions b fs ++ [b.szIndex, b.szIndexStream]
+
+/-- Everything that can be allocated at the same time by `lzma_stream_encoder_mt` with `options->threads = threads`,
+    `options->block_size = blockSizeOpt` (0 = automatic: `get_options` takes `lzma_mt_block_size(filters)`) and the chain
+    `fs`, after `nblocks` Blocks have been finished: the initialisation, every worker started (input buffer of the
+    EFFECTIVE block size each), one spare copy of the filter options in `filters_cache`, all `2·threads` buffers of the
+    output queue (`lzma_block_buffer_bound64(block size)` bytes + the `lzma_outbuf` header each), the Record groups of
+    the Index and the Index encoder. The ORDER of the worker and output-queue requests depends on the thread schedule;
+    the multiset does not. `none` = `get_options` fails. -/
+def streamEncoderMtAllocs (b : Build) (threads blockSizeOpt : Nat) (fs : List Filter) (nblocks : Nat) : Option (List Nat) :=
+  match mtGetOptions threads blockSizeOpt fs with
+  | none => none
+  | some (bs, ob) =>
+    some (streamEncoderMtInitAllocs b threads fs
+      ++ (List.replicate threads (mtEncWorkerAllocs b bs fs)).flatten
+      ++ copiedOptions b fs
+      ++ List.replicate (2 * threads) (outbufMemusage b ob)
+      ++ indexGroupAllocs b nblocks ++ [b.szIndexEncoder])
+
 /-! ## Index -/
 
 /-- `lzma_index_memusage` (`none` = UINT64_MAX). -/
